@@ -559,10 +559,10 @@ def execute(rec: dict, res: RunResult) -> None:
                 nsamp = [0]
 
                 def sample(twin=twin, fp0=fp0, nsamp=nsamp, transient=transient):
-                    if nsamp[0] < 40:
+                    if nsamp[0] < 14:
                         nsamp[0] += 1
                         transient.update(shared_state.changed_chains(fp0, shared_state.fingerprint(twin)))
-                sampler = (sample, 120 if rec["gran"] == "LINE" else 600)
+                sampler = (sample, 300 if rec["gran"] == "LINE" else 1500)
             out, sim = _traced(run, record=record, sampler=sampler)
             if need_w:
                 final = shared_state.changed_chains(fp0, shared_state.fingerprint(twin))
@@ -840,10 +840,11 @@ class C13(Engine):
                        "preemptions_fired_K5", "sweep_runs",
                        "runs_LINE", "runs_INSTRUCTION"]
     default_workers = 16
+    virtual_workers = 160     # runs are independent of the process's past (module state is reset per run)
 
     def budget(self, tier):
         if tier == "quick":
-            return {"runs": 16_000, "wall_s": 150, "selftest_samples": 24, "selftest_two_hashseeds": True}
+            return {"runs": 16_000, "wall_s": 170, "selftest_samples": 24, "selftest_two_hashseeds": True}
         return {"runs": 300_000, "wall_s": 2700, "selftest_samples": 48}
 
     def warmup(self):
